@@ -360,6 +360,9 @@ def correspondence(ctx):
     ctx.clean_cases = cl
     fin = cc.run(_finalize_cases(ctx, ctx.scale(60, 600)))
     ctx.fin_cases = fin
+    # the same three entry points on trees with symbolic links (harness/clean_own.py); judged by the oracle
+    own = co.generate_families(ctx, ctx.scale(60, 600), ctx.scale(30, 300), ctx.scale(30, 300))
+    ctx.own_cases = own
     # E1a
     checks = [_rdf_check(c) for c in cases]
     for c in cases:
@@ -417,6 +420,25 @@ def correspondence(ctx):
     for i in bad[:3]:
         _report(ctx, "correspondence", "E1c:finalize", "E1c:finalize:model-differs",
                 "real Builder.finalize and the model's finalize disagree on tree, REMOVE events or graph", _wit(fin[i]))
+    _own_correspondence(ctx, own)
+
+
+def _own_correspondence(ctx, own):
+    """The link-aware model against the real code on the trees with symbolic links."""
+    fams = [("rdf", "E1a-links:remove_deletable_files", co.rdf_model_check, co.rdf_witness, 60),
+            ("clean", "E1b-links:clean", co.clean_model_check, co.clean_witness, 30),
+            ("fin", "E1c-links:finalize", cc.finalize_check, co.finalize_witness, 30)]
+    for key, name, check, wit, chunk in fams:
+        cases = [c for c in own[key] if co.model_ok(c["before"])]
+        ctx.count(f"{name.split(':')[0]}_cases", len(cases))
+        ctx.count(f"{name.split(':')[0]}_outside_model_assumptions", len(own[key]) - len(cases))
+        checks = [check(c) for c in cases]
+        bad = _model_cases(ctx, "own" + key, checks, chunk)
+        ctx.traces_validated += len(checks) - len(bad)
+        for i in bad[:3]:
+            _report(ctx, "correspondence", name, name + ":model-differs",
+                    "the real code and model/Clean.v disagree on a tree with symbolic links (resulting tree, REMOVE events, "
+                    "graph or escaping exception)", wit(cases[i]))
 
 
 def oracle(ctx):
@@ -429,7 +451,8 @@ def oracle(ctx):
         _report(ctx, "oracle", name, sig, detail, witness)
     # ownership with symbolic links, implementation only (harness/clean_own.py): remove_deletable_files on hand-made
     # queues, Builder.finalize and clean.clean() on projects grown through the Workflow API, the real serve()
-    co.run_families(ctx, ctx.scale(60, 600), ctx.scale(30, 300), ctx.scale(30, 300), c06=True)
+    co.run_families(ctx, ctx.scale(60, 600), ctx.scale(30, 300), ctx.scale(30, 300), c06=True,
+                    res=getattr(ctx, "own_cases", None))
     if cc.e3_available():
         co.run_e3_replace(ctx, ctx.scale(12, 52), c06=True)
     for c in getattr(ctx, "rdf_cases", []):
